@@ -558,6 +558,27 @@ def install(reg):
     reg.spec("cfg_sizecode_invalid", s_cfg_sizecode_invalid, n_cfg_sizecode_invalid)
     # control-flow ghost: has the path entered the function's first loop?  (native twin: False - the replayer only
     # supplies item lists on which the loop and the constructor cannot refuse, so a native refusal is the limit check)
+    # control-flow ghost: was the contract of <qualname suffix> applied on this path?  exc_name: class name of the
+    # exception in an exceptional post-state.  (Native twins: a native run cannot see where an exception came from; the
+    # twin of `called` answers True, so clauses built on it are only decided by the proof, never refuted natively.)
+    reg.spec("called", lambda ex, suffix: any(str(q).endswith(suffix) for q in ex.st.ghost.get("calls", [])),
+             lambda suffix: True)
+    reg.spec("exc_name", lambda ex, e: e.cls.__name__, lambda e: type(e).__name__)
+    # text fields (type CH): the library's text codec is UTF-8 with backslash escapes for undecodable bytes (docstrings
+    # of val2bytes / bytes2val); decoding / encoding are functions of their argument
+    def s_text_decode(ex, b):
+        from pvc.values import SStr, TextOf, to_rope
+        if isinstance(b, (bytes, bytearray)):
+            return bytes(b).decode("utf-8", "backslashreplace")
+        return SStr((TextOf(to_rope(b), "utf-8", "backslashreplace"),))
+
+    def s_text_encode(ex, t):
+        if isinstance(t, str):
+            return t.encode("utf-8", "backslashreplace")
+        return ex.bm.str_method(t, "encode", ["utf-8", "backslashreplace"], {})
+
+    reg.spec("text_decode", s_text_decode, lambda b: bytes(b).decode("utf-8", "backslashreplace"))
+    reg.spec("text_encode", s_text_encode, lambda t: t.encode("utf-8", "backslashreplace"))
     reg.spec("reached_loop", lambda ex: any(str(l).startswith("loop1") or ":loop1" in str(l) for l in ex.st.labels),
              lambda: False)
     reg.spec("cfgname2key_spec", lambda ex, name: n_cfgname2key_spec(name), n_cfgname2key_spec)
